@@ -7,7 +7,10 @@ class C23(Spec):
     harness = "h_c23"
     lean_deps = ("C21", "C22")
     required_theorems = ("C23.len_le_count", "C23.nodup", "C23.excluded_absent", "C23.none_expired",
-                         "C23.non_eth_keep_order", "C23.eth_consecutive", "C23.eth_up_to_first_gap")
+                         "C23.non_eth_keep_order", "C23.eth_consecutive_partial", "C23.eth_up_to_first_gap_partial",
+                         "C23.eth_consecutive_full_false_para", "C23.eth_consecutive_full_false_prefork")
+    partial = ("C23.eth_consecutive_partial", "C23.eth_up_to_first_gap_partial")
+    refuted = ("C23.eth_consecutive_full_false_para", "C23.eth_consecutive_full_false_prefork")
     level_text = (
         "Lean theorems about a model of getTxList/filterTxList (walk in arrival order, exclusion set, isExpired for "
         "the next block by age/height/time/TxHeight, count cut) and sortEthSignTyTx (per-sender nonce chains from "
@@ -18,6 +21,10 @@ class C23(Spec):
         "and repeats, expiring txs), counts, exclusion lists, heights and clock values; the canonicalised list is "
         "compared and the predicate evaluated on every returned list.")
     level_note = (
+        "nonce ordering is proved for eth-signed transactions with a main-chain executor and with ForkCheckEthTxSort "
+        "active (both restrictions are in the code and refuted as full statements; the para-executor case is replayed "
+        "on the real code as a known finding, the pre-fork case cannot be driven with the default config whose fork "
+        "height is 0 - tie only above the fork); len_le_count needs count > 0 (count <= 0 is refused by EventTxList); "
         "the current-nonce oracle (rpc EventGetEvmNonce) is a parameter; `nodup` assumes a pool without duplicate "
         "hashes (C21.pool_inv); output order across eth senders follows Go map order and is canonicalised by sender "
         "before comparison (the theorems quantify over that order).")
